@@ -116,6 +116,14 @@ ScriptCloseDefer2 == <<S("Commit", "ins", 1, 2), S("Process", "", 0, 0), S("Lock
                        S("Defer", "", 0, 0), S("Process", "", 0, 0), S("Process", "", 0, 0), S("Process", "", 0, 0),
                        S("Reopen", "", 0, 0), S("Commit", "deref", 2, 0), S("Process", "", 0, 0)>>
 
+\* counting roots: two dereferences of tree 1 queued, the first processed; a reader locks the tree and inserts a tree
+\* that links its nodes; the second dereference must still be deferred (the registry of pending dereferences is a
+\* count per tree, not a flag)
+ScriptTwoDerefs == <<S("Commit", "ins", 1, 2), S("Commit", "ref", 1, 0), S("Process", "", 0, 0), S("Process", "", 0, 0),
+                     S("Commit", "deref", 1, 0), S("Commit", "deref", 1, 0), S("Process", "", 0, 0), S("Lock", "", 1, 0),
+                     S("Commit", "ins", 2, 1), S("Unlock", "", 1, 0), S("Defer", "", 0, 0), S("Process", "", 0, 0),
+                     S("Process", "", 0, 0), S("Pipe", "", 0, 0), S("Pipe", "", 0, 0), S("Pipe", "", 0, 0)>>
+
 \* exhaustive checking: the observation history stays empty
 MCSpec == Init /\ obs = <<>> /\ closing = FALSE /\ [][Next /\ UNCHANGED <<obs, closing>>]_<<vars, obs, closing>>
 
